@@ -1180,3 +1180,217 @@ Proof.
     + do 3 eexists. split; [reflexivity|]. norm_state. split; congruence.
   - rewrite Hm. do 3 eexists. split; [reflexivity|]. split; congruence.
 Qed.
+
+(* string->list: the selected characters are handed, last first, to the heap list
+   builder, on a machine that differs from the caller's only above the stack pointer *)
+Theorem string_list_refines s sid t a b :
+  stack_ok s -> tget (strs (st s)) sid = Some t -> opt_imm a -> opt_imm b ->
+  let r := run_builtin string_list (VStr sid :: range_args a b) s in
+  match range_decode a b with
+  | Some (start, end_) =>
+      if range_ok t start end_
+      then exists s2, st s2 = st s /\ hp s2 = hp s /\ sp s2 = sp s /\
+             r = (dom nl <- hput VNil;
+                  chars_to_list (rev (spec_sub t (range_start start) (range_end t end_))) nl) s2
+      else fails r s
+  | None => fails r s
+  end.
+Proof.
+  intros Hok Hs Ha Hb r. subst r.
+  pose proof (range_args_len a b) as Hl.
+  assert (Hpre : exists s2, st s2 = st s /\ hp s2 = hp s /\
+     match range_decode a b with
+     | Some (start, end_) =>
+         run_builtin string_list (VStr sid :: range_args a b) s =
+         (dom sid <- pop_string; dom t <- str_get sid;
+          dom sub <- lift (substring_core t start end_);
+          dom nl <- hput VNil; chars_to_list (rev sub) nl) s2
+         /\ top_is s2 [VStr sid] /\ sp s2 = sp s + 1
+     | None => run_builtin string_list (VStr sid :: range_args a b) s = RErr E_OTHER [] s2
+     end).
+  { enter_raw Hok s1.
+    replace (len (VStr sid :: range_args a b)) with (1 + len (range_args a b)) in *
+      by (rewrite !len_length; cbn [length]; lia).
+    cbn [rev] in Htop. rewrite <- ?app_assoc in Htop. cbn [app] in Htop.
+    unfold string_list. pop_argc_ 1 (Some 3).
+    rewrite (range_flag_start 1 a b :
+      ((1 + len (range_args a b) =? 2) || (1 + len (range_args a b) =? 3)) = is_some a).
+    rewrite (range_flag_end 1 a b : (1 + len (range_args a b) =? 3) = is_some (range_end_arg a b)).
+    pop_range_ a b [VStr sid]. rewrite st_pop1 in Hst2. rewrite hp_pop1 in Hhp2.
+    exists s2. split; [congruence|]. split; [congruence|].
+    destruct (range_decode a b) as [[start end_]|].
+    - destruct Hm as (Hm & T2 & Hsp2). split; [exact Hm|]. split; [exact T2|].
+      rewrite sp_pop1 in Hsp2. lia.
+    - exact Hm. }
+  destruct Hpre as (s2 & Hst2 & Hhp2 & Hm).
+  destruct (range_decode a b) as [[start end_]|] eqn:Hd.
+  - destruct Hm as (Hm & T2 & Hsp2). rewrite Hm.
+    pose proof (range_decode_args_ok _ _ _ Hd) as Hargs. cbn [fst snd] in Hargs.
+    pop_with pop_string_top E. cbn [as_string opt_res] in E. use_ok E.
+    assert (Hg : str_get sid (pop1 s2) = ROk t (pop1 s2))
+      by (apply str_get_ok; rewrite !st_pop1; congruence).
+    rewrite (bindM_ok _ _ _ _ _ Hg).
+    rewrite (substring_core_spec t start end_ Hargs).
+    destruct (range_ok t start end_); cbn [lift].
+    + exists (pop1 s2). norm_state. split; [congruence|]. split; [congruence|]. split; [lia|].
+      reflexivity.
+    + do 3 eexists. split; [reflexivity|]. norm_state. split; congruence.
+  - rewrite Hm. do 3 eexists. split; [reflexivity|]. split; congruence.
+Qed.
+
+(* ----------------------------------------------------- one-argument builtins *)
+Lemma one_char_arg (k : cp -> M vcell) s c :
+  stack_ok s ->
+  exists s2, st s2 = st s /\ hp s2 = hp s /\ sp s2 = sp s /\
+    run_builtin (dom _ <- pop_argc 1 (Some 1); dom c <- pop_char; k c) [VChar c] s = k c s2.
+Proof.
+  intro Hok. enter Hok s1. pop_argc_ 1 (Some 1).
+  pop_with pop_char_top E. cbn [as_char opt_res] in E. use_ok E.
+  exists (pop1 (pop1 s1)). norm_state. repeat split; try congruence. lia.
+Qed.
+
+Lemma one_string_arg (k : text -> M vcell) s sid t :
+  stack_ok s -> tget (strs (st s)) sid = Some t ->
+  exists s2, st s2 = st s /\ hp s2 = hp s /\ sp s2 = sp s /\
+    run_builtin (dom _ <- pop_argc 1 (Some 1); dom sid <- pop_string; dom t <- str_get sid; k t)
+      [VStr sid] s = k t s2.
+Proof.
+  intros Hok Hs. enter Hok s1. pop_argc_ 1 (Some 1).
+  pop_with pop_string_top E. cbn [as_string opt_res] in E. use_ok E.
+  get_str sid t.
+  exists (pop1 (pop1 s1)). norm_state. repeat split; try congruence. lia.
+Qed.
+
+Theorem char_pred_refines p s c :
+  stack_ok s -> returns (run_builtin (char_pred p) [VChar c] s) s (VBool (p c)) (st s).
+Proof.
+  intro Hok. destruct (one_char_arg (fun c => ret (VBool (p c))) s c Hok) as (s2 & H1 & H2 & H3 & E).
+  unfold char_pred. rewrite E. unfold ret. exists s2. auto.
+Qed.
+
+Theorem char_map_refines f s c :
+  stack_ok s -> returns (run_builtin (char_map f) [VChar c] s) s (VChar (f c)) (st s).
+Proof.
+  intro Hok. destruct (one_char_arg (fun c => ret (VChar (f c))) s c Hok) as (s2 & H1 & H2 & H3 & E).
+  unfold char_map. rewrite E. unfold ret. exists s2. auto.
+Qed.
+
+Theorem char_to_integer_refines s c :
+  stack_ok s -> returns (run_builtin char_to_integer [VChar c] s) s (VNum (Fixnum (Z.of_N c))) (st s).
+Proof.
+  intro Hok.
+  destruct (one_char_arg (fun c => ret (VNum (Fixnum (Z.of_N c)))) s c Hok) as (s2 & H1 & H2 & H3 & E).
+  unfold char_to_integer. rewrite E. unfold ret. exists s2. auto.
+Qed.
+
+Theorem digit_value_refines s c :
+  stack_ok s ->
+  returns (run_builtin digit_value [VChar c] s) s
+    (if is_digit c then VNum (Fixnum (Z.of_N (c - 48))) else VBool false) (st s).
+Proof.
+  intro Hok.
+  destruct (one_char_arg (fun c => if negb (is_digit c) then ret (VBool false)
+                                   else ret (VNum (Fixnum (Z.of_N (c - 48))))) s c Hok)
+    as (s2 & H1 & H2 & H3 & E).
+  unfold digit_value. rewrite E. exists s2. destruct (is_digit c); cbn [negb]; unfold ret; auto.
+Qed.
+
+Definition as_integer (v : vcell) : option num :=
+  match v with VNum n => if num_is_integer n then Some n else None | _ => None end.
+
+Lemma pop_integer_top s v vs :
+  top_is s (v :: vs) -> imm v ->
+  pop_integer s = opt_res (as_integer v) (pop1 s) /\ top_is (pop1 s) vs.
+Proof.
+  intros H Hi. destruct (pop_number_top _ _ _ H Hi) as [E T]. split; [|exact T].
+  unfold pop_integer. destruct v; cbn [as_number as_integer opt_res] in *;
+    try (now rewrite (bindM_err _ _ _ _ _ _ E)).
+  rewrite (bindM_ok _ _ _ _ _ E). now destruct (num_is_integer n).
+Qed.
+
+(* integer->char: a character exactly for the scalar values *)
+Theorem integer_to_char_refines s n :
+  stack_ok s ->
+  let r := run_builtin integer_to_char [VNum n] s in
+  match (if num_is_integer n then num_to_u32 n else None) with
+  | Some u => if is_scalar u then returns r s (VChar u) (st s) else fails r s
+  | None => fails r s
+  end.
+Proof.
+  intros Hok r. subst r. enter Hok s1. unfold integer_to_char. pop_argc_ 1 (Some 1).
+  pop_with pop_integer_top E. cbn [as_integer] in E.
+  destruct (num_is_integer n); cbn [opt_res] in E.
+  - use_ok E.
+    destruct (num_to_u32 n) as [u|]; [destruct (is_scalar u)|]; unfold ret, fail.
+    + finish_ret.
+    + finish_fail.
+    + finish_fail.
+  - use_err E. finish_fail.
+Qed.
+
+Lemma is_scalar_spec u : is_scalar u = true <-> (u < 0xD800 \/ (0xDFFF < u /\ u < 0x110000)).
+Proof.
+  unfold is_scalar. rewrite orb_true_iff, andb_true_iff, !N.ltb_lt. reflexivity.
+Qed.
+
+(* for an exact integer argument: an error exactly below 0, on the surrogates and
+   above 0x10FFFF *)
+Corollary integer_to_char_fixnum s z :
+  stack_ok s ->
+  let r := run_builtin integer_to_char [VNum (Fixnum z)] s in
+  if ((0 <=? z) && (z <? 0xD800) || (0xDFFF <? z) && (z <? 0x110000))%Z
+  then returns r s (VChar (Z.to_N z)) (st s) else fails r s.
+Proof.
+  intros Hok r. subst r. pose proof (integer_to_char_refines s (Fixnum z) Hok) as H.
+  cbn [num_is_integer num_to_u32] in H. unfold U32_MAX in H.
+  destruct (Z.leb_spec 0 z) as [H0|H0]; cbn [andb orb].
+  - destruct (Z.leb_spec z 4294967295) as [H1|H1]; cbn [andb] in H.
+    + destruct (is_scalar (Z.to_N z)) eqn:Hs.
+      * apply is_scalar_spec in Hs.
+        replace ((z <? 55296) || (57343 <? z) && (z <? 1114112))%Z with true; [exact H|].
+        symmetry. apply orb_true_iff. rewrite andb_true_iff, !Z.ltb_lt. lia.
+      * replace ((z <? 55296) || (57343 <? z) && (z <? 1114112))%Z with false; [exact H|].
+        symmetry. apply orb_false_iff. rewrite andb_false_iff, !Z.ltb_ge.
+        assert (Hn : ~ (Z.to_N z < 55296 \/ 57343 < Z.to_N z /\ Z.to_N z < 1114112))
+          by (rewrite <- is_scalar_spec; congruence).
+        lia.
+    + replace ((z <? 55296) || (57343 <? z) && (z <? 1114112))%Z with false; [exact H|].
+      symmetry. apply orb_false_iff. rewrite andb_false_iff, !Z.ltb_ge. lia.
+  - replace (0 <=? z)%Z with false in H by (symmetry; apply Z.leb_gt; lia). cbn [andb] in H.
+    replace ((57343 <? z) && (z <? 1114112))%Z with false; [exact H|].
+    symmetry. apply andb_false_iff. rewrite !Z.ltb_ge. lia.
+Qed.
+
+(* char->integer then integer->char is the identity on scalar values *)
+Corollary integer_char_roundtrip s c :
+  stack_ok s -> is_scalar c = true ->
+  returns (run_builtin integer_to_char [VNum (Fixnum (Z.of_N c))] s) s (VChar c) (st s).
+Proof.
+  intros Hok Hs. pose proof (integer_to_char_fixnum s (Z.of_N c) Hok) as H.
+  apply is_scalar_spec in Hs. rewrite N2Z.id in H.
+  replace ((0 <=? Z.of_N c) && (Z.of_N c <? 55296) || (57343 <? Z.of_N c) && (Z.of_N c <? 1114112))%Z
+    with true in H; [exact H|].
+  symmetry. apply orb_true_iff. rewrite !andb_true_iff, Z.leb_le, !Z.ltb_lt. lia.
+Qed.
+
+(* case conversion of strings: a fresh string holding std's conversion of the text *)
+Theorem string_case_refines (conv : text -> text) s sid t :
+  stack_ok s -> tget (strs (st s)) sid = Some t ->
+  returns (run_builtin (dom _ <- pop_argc 1 (Some 1); dom sid <- pop_string; dom t <- str_get sid;
+                        str_new (conv t)) [VStr sid] s)
+    s (VStr (next_id (st s))) (snd (new_str (st s) (conv t))).
+Proof.
+  intros Hok Hs.
+  destruct (one_string_arg (fun t => str_new (conv t)) s sid t Hok Hs) as (s2 & H1 & H2 & H3 & E).
+  rewrite E, str_new_run, H1. finish_ret.
+Qed.
+
+Theorem string_vector_refines s sid t :
+  stack_ok s -> tget (strs (st s)) sid = Some t ->
+  returns (run_builtin string_vector [VStr sid] s) s (VVec (next_id (st s)))
+    (snd (new_vec (st s) (map VChar t))).
+Proof.
+  intros Hok Hs.
+  destruct (one_string_arg (fun t => vec_new (map VChar t)) s sid t Hok Hs) as (s2 & H1 & H2 & H3 & E).
+  unfold string_vector. rewrite E, vec_new_run, H1. finish_ret.
+Qed.
